@@ -898,6 +898,8 @@ def delete_unused_functions_and_classes(
             if parent_class.name in preserve:
                 continue  # The class is used from elsewhere, and its magic methods with it
             constructor_usages = name_usages[parent_class.name]
+        elif parsing.is_magic_method(def_node):
+            continue  # A module level __getattr__ or __dir__ is called by the import system
         else:
             constructor_usages = set()
         recursive_usages = set(core.walk(def_node, ast.Name(id=def_node.name)))
